@@ -54,10 +54,10 @@ CHECKS = {
    text='The parser mechanism (required/inapplicable tables, defaults, bound checks with explicit "no value") is proved to refine the declarative acceptance rule on every legal vector and every single-fault perturbation (MC_Gen.tla: ParserOK, FamilySound, RejectBeforeWrite, AcceptWritesAll); every vector is replayed into the real Generator in a fresh location: accepted -> all files, rejected -> SystemExit(2) and nothing written.',
    tech='TLC model checking of MC_Gen + replay of every argument vector into Generator'),
  'C17': dict(cat='model_checking', sec='6 C17',
-   text='Exact rational model (MC_Skew.tla): positive, sum one, arithmetic progression, last = s x first, single agent -> <<1>> for all n <= 12/24 and s = p/q; create_linear_distribution compared with the exported rationals within 1e-9 and the laws re-checked on the floats. TLC adds exact arithmetic; numeric tolerance stated.',
+   text='Exact rational model (MC_Skew.tla): positive, sum one, arithmetic progression, last = s x first, single agent -> <<1>> for all n <= 12/24 and s = p/q; create_linear_distribution compared with the exported rationals within 1e-9 and the laws re-checked on the floats; the weights that reach the drawing routine (numpy.random.choice without replacement) in the second of two real generator runs of one process are compared with the rationals too (Draw / UsedAreThisRuns). TLC adds exact arithmetic; numeric tolerance stated.',
    tech='TLC exhaustive evaluation of the rational model + numeric comparison with the implementation'),
  'C18': dict(cat='model_checking', sec='6 C18',
-   text='MC_Hist.tla: all call sequences over {solve, 4 getters} starting with solve; getters read-only (action property), re-solve reproduces status, values and admissible set; every history replayed on one real Solver object with different tie-breaking per solve (stand-in) and real CBC on a sample; byte-for-byte text stability between solves, same status/values across solves, valid matching, get_debug rows consistent.',
+   text='MC_Hist.tla: all call sequences over {solve, 4 getters, a call on another Solver object of the same process} starting with solve; getters read-only (action property), re-solve reproduces status, values and admissible set; every history replayed on one real Solver object with different tie-breaking per solve (stand-in) and real CBC on a sample; byte-for-byte text stability between solves, same status/values across solves, valid matching, get_debug rows consistent.',
    tech='TLC model checking of call histories + replay on one Solver object'),
  'C16': dict(cat='model_checking', sec='6 C16',
    text='Slot placement/compaction modelled and proved to refine the declarative order/refusal rule (MC_Options.tla, positions around 1..9, extras, flag order); every command line replayed into Solver(argv) with a missing file (refusal before reading) and on a real instance (parsed order, reported order); order of solves checked semantically on MC_Solver families with permuted flags and gaps.',
